@@ -148,6 +148,7 @@ fn explore_property(prop: &str, tier: &str, only: Option<&str>) -> i32 {
     let mut exit = 0;
     let mut n_viol = 0;
     let mut known_lines = vec![];
+    let mut inconc: Vec<String> = vec![];
     let replay_bin = std::env::var("SYMORD_REPLAY_BIN").unwrap_or_else(|_| format!("{}/replay/target/release/replay", engine::root()));
     let _ = std::fs::create_dir_all(format!("{}/replays", engine::root()));
     for r in &reports {
@@ -173,11 +174,29 @@ fn explore_property(prop: &str, tier: &str, only: Option<&str>) -> i32 {
                     exit = 1;
                 }
             } else {
-                println!("INCONCLUSIVE: counterexample did not reproduce natively (engine/harness error?) property={} key={:?} msg={} :: {}", prop, key, v.msg, text.trim());
+                inconc.push(format!("INCONCLUSIVE: counterexample did not reproduce natively (engine/harness error?) property={} key={:?} msg={} :: {}", prop, key, v.msg, text.trim()));
                 if exit == 0 { exit = 2; }
             }
         }
     }
+    // Fallback: every counterexample failed to reproduce natively AND the audit found code comparing digest bytes directly
+    // (so the symbolic order no longer describes what the code does, e.g. a sort rewritten to compare `digest().data()`):
+    // decide the property over real hash orders instead (choices stay solver-certified), for three seeds, and say so.
+    let audit_new: Vec<String> = std::env::var("SYMORD_AUDIT").ok().and_then(|a| serde_json::from_str::<serde_json::Value>(&a).ok())
+        .and_then(|v| v["new_uses"].as_array().map(|a| a.iter().filter_map(|x| x.as_str().map(|s| s.to_string())).collect())).unwrap_or_default();
+    if exit == 2 && !audit_new.is_empty() && !symord::rt::real_order() && reports.iter().all(|r| r.incomplete.is_none()) {
+        println!("NOTE: no counterexample reproduced natively and the code compares digest bytes directly ({}): the symbolic digest order is abandoned for this run; deciding over real hash orders (3 seeds), choice variables still solver-certified", audit_new.join(" | "));
+        let exe = std::env::current_exe().expect("current_exe");
+        let args: Vec<String> = std::env::args().skip(1).collect();
+        let mut worst = 0;
+        for k in 0..3u64 {
+            let st = std::process::Command::new(&exe).args(&args).env("SYMORD_REAL_ORDER", "1").env("VERIF_SEED", (seed() + k).to_string()).status();
+            let c = st.ok().and_then(|s| s.code()).unwrap_or(2);
+            if c == 1 { worst = 1; } else if c != 0 && worst == 0 { worst = 2; }
+        }
+        return worst;
+    }
+    for l in &inconc { println!("{}", l); }
     for l in &known_lines { println!("{}", l); }
     for r in &reports { if let Some(m) = &r.incomplete { println!("INCONCLUSIVE: scenario {} incomplete: {}", r.scenario, m); if exit == 0 { exit = 2; } } }
 
@@ -220,6 +239,7 @@ fn explore_property(prop: &str, tier: &str, only: Option<&str>) -> i32 {
             "rule": "one evaluation = one execution path of the real bc-envelope code under one solver-consistent class of digest orders and one assignment of the scenario's choice variables (fork by re-execution); paths are distinct by construction (distinct decision vectors); non-trivial = reached the end of the scenario (not cut by an assume) and took at least one forking decision",
             "samples": samples,
             "exhaustive": reports.iter().all(|r| r.incomplete.is_none()),
+            "order_mode": if symord::rt::real_order() { "REAL hash order for this seed (fallback: the code compares digest bytes directly, see audit_digest_bytes.new_uses; the order dimension is sampled over 3 seeds, not solver-quantified)" } else { "symbolic (solver-quantified)" },
             "technique": "SymOrd: symbolic digest order + symbolic choices over the natively compiled code, z3 decides every order query; coverage certificate (z3" .to_string() + if cfg.cvc5 { " and cvc5" } else { "" } + ") proves the explored path conditions cover every total order and every choice assignment within the bound",
             "scenarios": reports.iter().map(|r| serde_json::json!({
                 "name": r.scenario, "bounds": p.scenarios.iter().find(|s| s.name == r.scenario).map(|s| s.bounds),
